@@ -72,7 +72,7 @@ def check_match(case):
     y_in = np.array(y, dtype=float)
     keep = y_in.copy()
     try:
-        z = call_impl(case)
+        z = case["_z"] if "_z" in case else call_impl(case)
     except Exception as e:  # noqa
         k = dict(key)
         k["exc"] = type(e).__name__
@@ -251,3 +251,57 @@ def make_value_body(grids, alphas, prefix):
     return body
 
 
+
+
+WEAVER_HIST_OPS = [("recreate", "linfix", 2), ("recreate", "pconst", 3), ("recreate", "expada", 2), ("restore_original",),
+                   ("truncate_by_value", "absA"), ("truncate_by_value", "absB"), ("truncate_by_index", 1, None), ("append", True),
+                   ("repeat", 2), ("shift_x", 1.0), ("scale_y", 2.0), ("interpolate_n", 7, "linear")]
+
+
+@kind("weaver-match")
+def check_weaver_match(case):
+    """the same clauses judged on what Weaver.integral_match produces in an arbitrary state: the working
+    series before the call is (x, y), the current reference is (x_ref, y_ref)"""
+    import copy
+    import warnings
+    from checks import weaverops as WO
+    r = WO.Runner(WO.INITS[case["init"]])
+    for op in case["ops"]:
+        op = tuple(op)
+        if r.concretize(op) is None:
+            return [], ("filtered", "disabled-op")
+        r.apply(op)
+    gx, gy = r.wv.get()
+    rx, ry = r.wv.get_reference()
+    c = {"kind": "match", "x": WO.fl(gx), "y": WO.fl(gy), "xr": WO.fl(rx), "yr": WO.fl(ry), "mode": "search", "strategy": "closest",
+         "fixed": None, "tr": case["tr"], "rr": "rectangle", "alpha": 1.0}
+    if selection(c)[0] != "ok":
+        return [], ("filtered", "not-admissible")
+    with warnings.catch_warnings():
+        warnings.simplefilter("ignore")
+        try:
+            c["_z"] = np.asarray(copy.deepcopy(r.wv).integral_match(target_function_integral_method=case["tr"]).get()[1], dtype=float)
+        except Exception as e:  # noqa
+            return [fail("C01:raised", {"exception": repr(e)}, {"path": "weaver", "exc": type(e).__name__})], ("raised",)
+    fails, sig = check_match(c)
+    for f in fails:
+        f["key"] = dict(f.get("key") or {}, path="weaver-history")
+    return fails, sig
+
+
+def make_weaver_body(prefix, depth):
+    def body(ctx):
+        ii = ctx.choose([0, 1, 3], "init")
+        ops = [ctx.choose(WEAVER_HIST_OPS, "op%d" % d) for d in range(depth)]
+        for tr in RULES:
+            case = {"kind": "weaver-match", "init": ii, "ops": [list(o) for o in ops], "tr": tr}
+            fails, sig = check_weaver_match(case)
+            ctx.call(2)
+            ctx.case(1)
+            for f in only(prefix, fails):
+                ctx.fail(f["clause"], case, f.get("detail"), f.get("key"))
+            if sig[0] == "filtered":
+                ctx.note("filtered_" + sig[1])
+            else:
+                ctx.outcome(("weaver",) + tuple(sig), nontrivial=bool(sig[-1]))
+    return body
